@@ -331,6 +331,19 @@ class Hist:
                     sel.insert(rng.randint(0, len(sel)), a)
                     absent = True
             val = self.value_for(h, len(sel))
+            if val[0] == "scalar" and rng.random() < 0.3:
+                # one scalar for a key vector with repeats is well defined (per-key values would not be)
+                present = [kk for kk in sel if kk in self.m[h]]
+                for _ in range(rng.randint(1, 3)):
+                    sel.insert(rng.randint(0, len(sel)), rng.choice(present))
+                if rng.random() < 0.5 and len(sel) > len(keys) >= 2:
+                    # as many entries as the table has keys, but not naming every key
+                    drop = rng.choice([kk for kk in keys])
+                    sel = [kk for kk in sel if kk != drop][:len(keys)]
+                    while len(sel) < len(keys) and any(kk in self.m[h] for kk in sel):
+                        sel.append(rng.choice([kk for kk in sel if kk in self.m[h]]))
+                    if not sel:
+                        sel = [keys[0]]
             op = {"op": "setv", "h": h, "keys": sel, "value": val}
             self.qform(h, op)
             self.ops.append(op)
